@@ -131,6 +131,7 @@ func runChain(ctx *hx.Ctx, spec *cg.Spec, stop int) {
 		ctx.Cov.Count("chains:poa")
 	}
 	var pend []pending
+	lastN := -1
 	fail := func(class, msg string, height int, found bool) {
 		ctx.Violation(class, msg, Replay{spec, height}, found)
 	}
@@ -170,6 +171,15 @@ func runChain(ctx *hx.Ctx, spec *cg.Spec, stop int) {
 			}{spec, hgt, k})
 			ctx.Cov.Case(string(canon), nontrivial(s), nil)
 			ctx.Cov.Count("kind=" + view.Kind)
+			if view.Updates {
+				ctx.Cov.Count("pos-housekeeping-with-updates")
+			}
+			if view.PoS && lastN >= 0 && lastN != len(view.Cands) {
+				ctx.Cov.Count("pos-leader-group-size-changed")
+			}
+			if view.PoS {
+				lastN = len(view.Cands)
+			}
 			ctx.Cov.Bucket("candidates", len(view.Cands))
 			ctx.Cov.Bucket("txs-in-block", len(s.Block.Transactions()))
 			for i, cd := range s.Cands {
